@@ -98,4 +98,14 @@ CHECKS = {
         trusted_base=TB,
         assumptions=[],
     ),
+    "C07": dict(
+        packs=["c07"], level="other",
+        explanation="R07.1 per-field effect summaries of the 12 Transform impls from MIR def-use (with mutation through &mut tracked): translate and translate_mut shift exactly the same fields, those are the position-carrying fields of the confirmed anchor table, every other field is copied unchanged, translate_mut returns self. "
+                    "R07.3 every function that reads Polyline::vertices applies (itself or in all its direct callers) the extra Polyline::translate field.",
+        claim="Decides the clause 'translate_mut has the same effect as translate' and that exactly the anchors move; that rasterisation itself is translation-equivariant (join arithmetic on absolute coordinates) is not decided.",
+        note="Necessary conditions. Known deviation of the pristine tree outside this rule's reach: thick miter joins round a position-dependent numerator (IntersectionParams::intersection), see DESIGN.md section 7.",
+        technique="per-field effect summaries from MIR def-use with &mut mutation tracking, compared between sibling methods and with an anchor table",
+        trusted_base=TB,
+        assumptions=[],
+    ),
 }
